@@ -1,0 +1,71 @@
+// Copyright 2024 Huawei Cloud Computing Technologies Co., Ltd.
+//
+// Licensed under the Apache License, Version 2.0 (the "License");
+// you may not use this file except in compliance with the License.
+// You may obtain a copy of the License at
+//
+//     http://www.apache.org/licenses/LICENSE-2.0
+//
+// Unless required by applicable law or agreed to in writing, software
+// distributed under the License is distributed on an "AS IS" BASIS,
+// WITHOUT WARRANTIES OR CONDITIONS OF ANY KIND, either express or implied.
+// See the License for the specific language governing permissions and
+// limitations under the License.
+
+package immutable
+
+import (
+	"path/filepath"
+	"reflect"
+	"sort"
+	"testing"
+
+	"github.com/openGemini/openGemini/lib/config"
+	"github.com/openGemini/openGemini/lib/fileops"
+)
+
+// The column-store compaction renames its output before it writes the compact log, so the log
+// lists the new files under their final names. Finishing such a log at start-up must keep the
+// new file as it is (not cut five characters off its name) and remove the old files.
+func TestCompactLog_NewFilesUnderFinalNames(t *testing.T) {
+	testCompDir := t.TempDir()
+	defer fileops.RemoveAll(testCompDir)
+
+	allFiles := []string{
+		"000000001-0000-0000.tssp", "000000002-0000-0000.tssp",
+		"000000003-0000-0000.tssp", "000000004-0000-0000.tssp",
+	}
+	expFiles := []string{"000000001-0001-0000.tssp", "000000004-0000-0000.tssp"}
+
+	info := &CompactedFileInfo{
+		Name:    "mst1",
+		IsOrder: true,
+		OldFile: allFiles[:3],
+		NewFile: []string{"000000001-0001-0000.tssp"},
+	}
+
+	dir := filepath.Join(testCompDir, ColumnStoreDirName, "mst1")
+	mustTouchFiles(dir, allFiles[3:])
+	oldFiles := mustCreateTsspFiles(dir, info.OldFile)
+	newFiles := mustCreateTsspFiles(dir, info.NewFile)
+	defer func() {
+		mustCloseTsspFiles(oldFiles)
+		mustCloseTsspFiles(newFiles)
+	}()
+
+	lockPath := ""
+	store := &MmsTables{lock: &lockPath}
+	if _, err := store.writeCompactedFileInfo(info.Name, oldFiles, newFiles, testCompDir, info.IsOrder); err != nil {
+		t.Fatal(err)
+	}
+	if err := recoverFile(testCompDir, &lockPath, config.COLUMNSTORE, nil); err != nil {
+		t.Fatal(err)
+	}
+
+	files := filesInDir(dir)
+	sort.Strings(expFiles)
+	sort.Strings(files)
+	if !reflect.DeepEqual(files, expFiles) {
+		t.Fatalf("processLog error, exp:%v, get:%v", expFiles, files)
+	}
+}
